@@ -11,6 +11,7 @@ package main
 import (
 	"archive/zip"
 	"bytes"
+	"crypto/sha256"
 	"encoding/json"
 	"fmt"
 	"os"
@@ -361,13 +362,18 @@ func c05AgreeCase(c *shard.Ctx, idx int64, desc map[string]interface{}, base c05
 	path := filepath.Join(sub, "a.docx")
 	var ref, file []byte
 	var terr, serr error
+	var kept [][]byte
+	var keptSum [][32]byte
 	last := c05Muts[seq[len(seq)-1]].name
 	pan := guard(func() {
 		d := base.build()
 		ser := func(how string) {
 			switch how {
 			case "ToBytes":
-				d.ToBytes()
+				if b, err := d.ToBytes(); err == nil {
+					kept = append(kept, b)
+					keptSum = append(keptSum, sha256.Sum256(b))
+				}
 			case "Save":
 				d.Save(filepath.Join(sub, "earlier.docx"))
 			}
@@ -399,6 +405,13 @@ func c05AgreeCase(c *shard.Ctx, idx int64, desc map[string]interface{}, base c05
 	if pan != "" {
 		P.Violate(rep.Violation{Sig: "panic|agreement|" + panicClass(pan), Clause: "panic", What: fmt.Sprintf("history %v panics: %s", desc, pan), Case: cs})
 		return
+	}
+	for k, b := range kept {
+		// what ToBytes yielded "at that moment" is the caller's: later calls must not rewrite it
+		if sha256.Sum256(b) != keptSum[k] {
+			P.Violate(rep.Violation{Sig: "tobytes-result-changed-later|agreement", Clause: "save-equals-tobytes", What: fmt.Sprintf("the bytes an earlier ToBytes returned were changed by later calls (%v)", desc), Case: cs})
+			break
+		}
 	}
 	if terr != nil {
 		P.Outcome("agreement=>ToBytes-error")
